@@ -31,6 +31,8 @@ pub enum Fault {
     },
     /// f9 (in flight): the document is replaced by these bytes
     WireReplace(Binary),
+    /// f16: the delivery carries no transaction info (as for calls made outside a transaction)
+    EnvNoTx,
 }
 
 impl Fault {
@@ -42,6 +44,7 @@ impl Fault {
             Fault::ReplyDataReplace(_) => "f6_reply_data_replace",
             Fault::ReplyMeta { .. } => "f7_reply_meta",
             Fault::WireReplace(_) => "f9_wire_inflight",
+            Fault::EnvNoTx => "f16_env_no_tx",
         }
     }
 }
